@@ -446,4 +446,44 @@ def rule_j(ctx: Ctx) -> None:
                 'particles (bool(self) False, len(self) 0): the report stays reachable in both.')
 
 
-RULES = [rule_a, rule_b, rule_c, rule_d, rule_e, rule_f, rule_g, rule_h, rule_i, rule_j]
+def rule_k(ctx: Ctx) -> None:
+    """Children with the same name keep their document order through the encoder: the content iterators that reorder encoded content against the
+    model (collapsing and unordered converters) park same-named values in per-name buffers; a buffer is filled at the tail and must be drained
+    from the head.  The character-data parts are kept in a list sorted in *descending* index order and taken from its end."""
+    rule = 'C05.k'
+    nd = npop = 0
+    for name in ('iter_unordered_content', 'iter_collapsed_content'):
+        f = ctx.idx.func(f'xmlschema.validators.models.{name}')
+        ctx.analysed(f.qualname)
+        for c in calls(f.node):
+            if not isinstance(c.func, ast.Attribute):
+                continue
+            recv, m = c.func.value, c.func.attr
+            if isinstance(recv, ast.Subscript) and isinstance(recv.value, ast.Name):
+                # B[key].<m>(…): a per-name buffer
+                if m in ('popleft', 'pop', 'appendleft', 'extendleft', 'insert', 'reverse'):
+                    nd += 1
+                    fifo = m == 'popleft' or (m == 'pop' and len(c.args) == 1 and isinstance(c.args[0], ast.Constant) and c.args[0].value == 0)
+                    ctx.ob(rule, f'{name}: `{text(c)[:50]}` takes the oldest parked value of the name', f.loc(c), fifo,
+                           '' if fifo else f'`.{m}(…)` on a buffer that is filled with append(): the values of one name leave in reverse order - `<b>10</b><b>20</b><b>30</b>` '
+                           'is re-encoded as 10, 30, 20; the document stays valid but decodes to other data', key=f'{name}|drain|{text(recv.value)}')
+            elif isinstance(recv, ast.Name) and m == 'pop':
+                npop += 1
+                defs = [s_.value for s_ in ast.walk(f.node) if isinstance(s_, ast.Assign) and len(s_.targets) == 1 and text(s_.targets[0]) == recv.id]
+                desc = bool(defs) and all(isinstance(d, ast.Call) and text(d.func) == 'sorted' and any(k.arg == 'reverse' and isinstance(k.value, ast.Constant) and k.value.value is True
+                                                                                                       for k in d.keywords) for d in defs)
+                asc = bool(defs) and all(isinstance(d, ast.Call) and text(d.func) == 'sorted' and not any(k.arg == 'reverse' for k in d.keywords) for d in defs)
+                from_end = not c.args
+                ok = (from_end and desc) or (not from_end and isinstance(c.args[0], ast.Constant) and c.args[0].value == 0 and asc)
+                ctx.ob(rule, f'{name}: `{text(c)}` yields the character-data parts in ascending index order', f.loc(c), ok,
+                       '' if ok else f'`{recv.id}` is {"sorted descending" if desc else "sorted ascending" if asc else "not a sorted list"} and popped from the '
+                       f'{"end" if from_end else "front"}: the text parts between the children come out in reverse order', key=f'{name}|cdata|{text(c)}')
+        rev = [c for c in calls(f.node) if isinstance(c.func, ast.Name) and c.func.id == 'reversed']
+        ctx.ob(rule, f'{name}: the final flush of the buffers runs forward', f.loc(rev[0]) if rev else f.loc(), not rev, '', key=f'{name}|flush-forward', nontrivial=False)
+    ctx.floor(rule, 'drains of per-name buffers', nd, 2)
+    ctx.floor(rule, 'character-data pops', npop, 4)
+    ctx.explain('C05.k: in iter_unordered_content / iter_collapsed_content every removal from a per-name buffer `B[key]` is popleft() / pop(0) (fill: append), no reversed(); every '
+                '`cdata.pop()` is on a list built by sorted(…, reverse=True).')
+
+
+RULES = [rule_a, rule_b, rule_c, rule_d, rule_e, rule_f, rule_g, rule_h, rule_i, rule_j, rule_k]
